@@ -35,12 +35,13 @@ _PARSE_TRUST = ['byteorder BigEndian::{read_u16,read_u128,write_u16} = big-endia
 PROPS['C02'] = {
     'level': 'proof',
     'vx': [{'unit': 'parse', 'functions': ['from_bytes', 'parse', 'padded_attr_len', 'padded_len', 'get_type', 'transaction_id', 'next', 'length', 'deref', 'try_from', 'data_length', 'new']}],
+    'kx': ['k02_lookups_small'],
     'bx': ['c02'],
     'rule': 'Verus verification conditions, one query per extracted function / lemma of unit parse.',
     'proved': ['Message::from_bytes: Ok <==> wf_message(bytes) (spec predicate written from the statement), message == buffer',
                'error causes: <20 bytes Truncated{20,len}; bad top bits/cookie NotStun; declared>available Truncated{declared+20,len}; NotStun/FingerprintMismatch/AttributeAfter* only named truthfully',
                'get_type / transaction_id read the RFC fields; MessageAttributesIter::next yields exactly exposed(bytes) with type, length and value bytes of each TLV'],
-    'bounded': ['raw_attribute / has_attribute / attribute (iterator adaptors find/any) : BX only', 'exact variant/type of interior rejections: BX differential against the reference decoder'],
+    'bounded': ['raw_attribute / has_attribute / attribute (iterator adaptors find/any): BX, and Kani bounded harness k02_lookups_small (thorough tier: three zero-length attributes, all type triples)', 'exact variant/type of interior rejections: BX differential against the reference decoder'],
     'trusted': _PARSE_TRUST,
 }
 PROPS['C17'] = {
